@@ -227,6 +227,17 @@ def merge_clash(r, odml, doc, a, b, roots, stage, box):
     n = r.randrange(10 ** 6)
     via = r.choice(["merge_strict", "merge_loose", "merge_loose", "link_abs", "link_rel", "finalize",
                     "prop_merge_loose", "prop_merge_strict"])
+    if via == "finalize":
+        # finalize() is asked only on a document without other links / includes: there it is one link
+        # assignment.  With other linking Sections around (left by earlier provocations of the same
+        # case) it re-resolves them too - new copies with new ids - or stops at one of them: finalize over
+        # several links is C12's operation and not among the operations C06 quantifies over (C03-C05, C09).
+        try:
+            others = any(s.link is not None or s.include is not None for s in doc.itersections())
+        except Exception:
+            others = True
+        if others:
+            via = "link_abs"
     in_doc = via in ("link_abs", "link_rel", "finalize")
     dst = odml.Section("dst%d" % n, "t", parent=r.choice([doc, b] if in_doc else [doc, b, None, None]),
                        definition=r.choice([None, None, "own definition"]),
